@@ -50,7 +50,9 @@ func OverlappingTables(tables []TableMeta, kr KeyRange) (int, int) {
 		return utils.CompareKeys(kr.Left, tables[i].MaxKey) <= 0
 	})
 	right := sort.Search(len(tables), func(i int) bool {
-		return utils.CompareKeys(kr.Right, tables[i].MaxKey) < 0
+		// first table that starts beyond the range: a table that merely ENDS beyond
+		// kr.Right still overlaps it and must be part of the compaction
+		return utils.CompareKeys(kr.Right, tables[i].MinKey) < 0
 	})
 	return left, right
 }
